@@ -62,18 +62,20 @@ def size (x : Item) : Nat := (encode x).length
 /-- how many bytes the fake item is longer than the real one (0 when it is not) -/
 def slack (fake real : Item) : Nat := size fake - size real
 
-/-! ## the placeholder witnesses: `TransactionBuilder._build_fake_vkey_witnesses` (txbuilder.py)
+/-! ## the placeholder witnesses: `TransactionBuilder._build_fake_vkey_witnesses` (txbuilder.py, since repair 504b48a)
 
 ```python
 witnesses = []
 for i in range(self._witness_count()):
     i_bytes = i.to_bytes(32, "big")
-    unique_vkey = VerificationKey.from_primitive(bytes(x & y for x, y in zip(bytes.fromhex("5797…7ef9"), i_bytes)))
-    unique_sig = bytes(x & y for x, y in zip(bytes.fromhex("577c…6a03"), i_bytes + i_bytes))
+    unique_vkey = VerificationKey.from_primitive(bytes(x ^ y for x, y in zip(bytes.fromhex("5797…7ef9"), i_bytes)))
+    unique_sig = bytes(x ^ y for x, y in zip(bytes.fromhex("577c…6a03"), i_bytes + i_bytes))
     witnesses.append(VerificationKeyWitness(unique_vkey, unique_sig))
 return NonEmptyOrderedSet(witnesses)          # OrderedSet.append drops an element that is already present
 ```
-(`i.to_bytes(32, "big")` raises for `i ≥ 2^256`; the model takes the low 32 bytes, a count nobody reaches.) -/
+Deviation: `i.to_bytes(32, "big")` raises `OverflowError` for `i ≥ 2^256` (a witness count above `2^256`); the model
+(`beBytes 32 i`) takes the low 32 bytes instead, so that `fakeKey (2^256) = fakeKey 0` in the model where the code
+crashes. No theorem below is stated for an index at or beyond that bound. -/
 
 def maskVkey : Bytes := [
    0x57, 0x97, 0xdc, 0x2c, 0xc9, 0x19, 0xdf, 0xec, 0x0b, 0xb8, 0x49, 0x55, 0x1e, 0xbd, 0xf3, 0x0d,
@@ -85,11 +87,12 @@ def maskSig : Bytes := [
    0x76, 0x3d, 0xd4, 0x2a, 0xdc, 0xf5, 0xe8, 0x80, 0x5d, 0x70, 0x37, 0x37, 0x22, 0xeb, 0xbc, 0xe6,
    0x2a, 0x58, 0xe3, 0xf3, 0x0d, 0xd4, 0x56, 0x0b, 0x9a, 0x89, 0x8b, 0x8c, 0xee, 0xab, 0x6a, 0x03]
 
-def andBytes (xs ys : Bytes) : Bytes := List.zipWith (fun x y => x &&& y) xs ys
+/-- `bytes(x ^ y for x, y in zip(xs, ys))` -/
+def xorBytes (xs ys : Bytes) : Bytes := List.zipWith (fun x y => x ^^^ y) xs ys
 
 /-- the `(vkey, signature)` pair of the `i`-th placeholder -/
 def fakeKey (i : Nat) : Bytes × Bytes :=
-  (andBytes maskVkey (beBytes 32 i), andBytes maskSig (beBytes 32 i ++ beBytes 32 i))
+  (xorBytes maskVkey (beBytes 32 i), xorBytes maskSig (beBytes 32 i ++ beBytes 32 i))
 
 /-- `OrderedSet.extend`: an element equal to an earlier one is dropped (first occurrence kept) -/
 def dedupAux (seen : List (Bytes × Bytes)) : List (Bytes × Bytes) → List (Bytes × Bytes)
